@@ -19,6 +19,14 @@ func (fv *FuncVC) native(v ssa.Value, f *ssa.Function, cc *ssa.CallCommon, args 
 	trust := func(what string) { fv.trustedUse["native:"+what] = true }
 	if strings.HasPrefix(name, "sync/atomic.") {
 		op := strings.TrimPrefix(name, "sync/atomic.")
+		if tr := fv.P.trackedName(cc); tr != "" {
+			idx := fv.logAppend(tr, args, ats)
+			defer func() {
+				if val, ok := fv.vals[v]; ok && v != nil && val.T.S != "" {
+					fv.logResults(tr, idx, []Val{val})
+				}
+			}()
+		}
 		lvOf := func(a Val, at types.Type) *LValue {
 			if a.LV != nil {
 				return a.LV
@@ -97,9 +105,48 @@ func (fv *FuncVC) native(v ssa.Value, f *ssa.Function, cc *ssa.CallCommon, args 
 		if !ok {
 			return false
 		}
+		pred := ""
+		if f := strings.Fields(tn); len(f) == 2 {
+			tn, pred = f[0], f[1]
+		}
 		env := fv.newEnv(fv.cur, fv.entry)
 		env.pkgOverride = g.Pkg.Pkg.Path()
-		gt := env.lookupType(tn)
+		var gt types.Type
+		if tn == "[]byte" {
+			gt = types.NewSlice(types.Typ[types.Byte])
+		} else {
+			gt = env.lookupType(tn)
+		}
+		if !pointerShaped(gt) {
+			// a pool of values (slices): no identity-based ownership, only the declared predicate
+			trust("sync.Pool " + g.Name() + " holds only " + tn + " values satisfying " + pred + " (every Put is checked; New is assumed to comply)")
+			b, u := fv.boxFuncs(gt)
+			if strings.HasSuffix(name, "Get") {
+				val := fv.freshWF("pooled", gt)
+				val.Go = gt
+				if sf := fv.P.CS.Specs[pred]; sf != nil {
+					fv.assume(env.specCall(sf, []Term{val}).S)
+				}
+				if val.Sort.Kind == KBytes || val.Sort.Kind == KSlice {
+					// pooled storage was allocated earlier and is nobody else's
+					fv.assume(smtAnd(app(">", fv.baseOf(val), "0"), app("<=", fv.baseOf(val), fv.ghostTerm(fv.cur, "alloc", SMath).S)))
+					fv.assume(app("=", app("poolowned", fv.baseOf(val)), "true"))
+				}
+				ref := app(b, val.S)
+				fv.assert(app("=", app(u, ref), val.S))
+				fv.setResult(v, []Val{{T: Term{S: fmt.Sprintf("(mk_Iface %d %s)", fv.tagOf(gt), ref), Sort: SIface, Go: rts[0]}}})
+				return true
+			}
+			x := fv.asTerm(args[1], ats[1])
+			goal := app("=", app("Iface_tag", x.S), fmt.Sprint(fv.tagOf(gt)))
+			if sf := fv.P.CS.Specs[pred]; sf != nil {
+				pv := Term{S: app(u, app("Iface_ref", x.S)), Sort: fv.sortOf(gt), Go: gt}
+				goal = smtAnd(goal, env.specCall(sf, []Term{pv}).S)
+			}
+			fv.oblige("pool", "put", nil, pos, goal, "only "+tn+" values satisfying "+pred+" are put into "+g.Name())
+			fv.setResult(v, nil)
+			return true
+		}
 		trust("sync.Pool " + g.Name() + " holds only non-nil " + tn + " values and hands each to one owner at a time (its New function and every Put are checked to supply that type)")
 		okey := "owned." + structName(gt.(*types.Pointer).Elem())
 		h := fv.heapTerm(fv.cur, okey, SBool)
@@ -170,6 +217,10 @@ func (fv *FuncVC) loadShared(lv *LValue, pos token.Pos) Term {
 	var gt types.Type = lv.Type
 	h := fv.freshWF("shared", gt)
 	h.Go = gt
+	if h.Sort.Kind == KRef {
+		// whatever another goroutine stored was allocated before now
+		fv.assert(app("<=", h.S, fv.ghostTerm(fv.cur, "alloc", SMath).S))
+	}
 	fv.store(fv.cur, lv, h)
 	fv.assumeInterferenceInv(lv, pos)
 	return fv.load(fv.cur, lv)
@@ -208,9 +259,19 @@ func (fv *FuncVC) assumeInterferenceInv(lv *LValue, pos token.Pos) {
 		return
 	}
 	env := fv.newEnv(fv.cur, fv.entry)
+	env.assuming = true
 	for _, r := range fv.C.Requires {
-		if strings.Contains(fv.C.Flags["rely"], fmt.Sprint(r.Idx)) {
-			fv.assume(env.evalBool(r.E, r))
+		for _, idx := range strings.Fields(strings.ReplaceAll(fv.C.Flags["rely"], ",", " ")) {
+			if idx == fmt.Sprint(r.Idx) {
+				fv.assume(env.evalBool(r.E, r))
+			}
 		}
+	}
+	if lv.Kind == LElem {
+		sl := lv.SliceT
+		if o, ok := fv.cur.slices[lv.Slice]; ok {
+			sl = o
+		}
+		fv.instantiateAt(fv.arrOf(sl), lv.Idx)
 	}
 }
